@@ -202,8 +202,10 @@ func (e *Engine) evalGhostAt(fr *frame, li *loopInfo, c *ssa.Call, phis map[ssa.
 		sub.vals[k] = v
 	}
 	savePure := e.pure
+	saveGuard := e.guard
 	e.pure = true
-	defer func() { e.pure = savePure }()
+	e.guard = "true"
+	defer func() { e.pure = savePure; e.guard = saveGuard }()
 	h := heap.clone()
 	// evaluate, on demand, the pure cone of the call's arguments
 	var need func(v ssa.Value) Val
@@ -282,7 +284,7 @@ func (e *Engine) enterLoop(fr *frame, li *loopInfo, reach string, heap Heap, con
 	}
 	// havoc
 	keys, _ := e.modSet(fr, li)
-	h := heap.clone()
+	h := heap // shared linear heap: the havoc is guarded by the loop's entry condition
 	// components not yet created but written in the loop are created lazily with their
 	// initial symbol; since nothing before the loop touched them, havocking is a fresh symbol too
 	var ckeys []string
@@ -292,7 +294,9 @@ func (e *Engine) enterLoop(fr *frame, li *loopInfo, reach string, heap Heap, con
 	sort.Strings(ckeys)
 	for _, k := range ckeys {
 		if e.inModSet(keys, k) {
-			h[k] = e.sc.declare("Hloop_"+k, e.comps[k].sort)
+			fresh := e.sc.declare("Hloop_"+k, e.comps[k].sort)
+			h[k] = e.sc.define("Hl_"+k, e.comps[k].sort, ite(reach, fresh, e.heapGet(h, e.comps[k])))
+			e.dirty[k] = true
 		}
 	}
 	e.loopMods(li, keys)
